@@ -334,7 +334,10 @@ func errorBound(c *core.Ctx, docs []*calcproto.Doc, res []Result) {
 			c.TieBroken("drive:C01/class", "unexpected answer "+cout[k], Case{d})
 			continue
 		}
-		inClass := cf[1] == "1"
+		// "1": class of decided_class_bound; "2": class of decided_class_bound_included
+		// (prices including one tax category; tax_included is held to the bound too)
+		inClass := cf[1] == "1" || cf[1] == "2"
+		included := cf[1] == "2"
 		weight, _ := strconv.ParseInt(cf[2], 10, 64)
 		inv := d.Invoice()
 		if inv.Calculate() != nil || inv.Totals == nil {
@@ -361,6 +364,12 @@ func errorBound(c *core.Ctx, docs []*calcproto.Doc, res []Result) {
 			if weight < 100 {
 				c.Count("error-bound:in-proved-class-weight<100", 1)
 			}
+			if included {
+				c.Count("error-bound:in-proved-class-included", 1)
+				if weight < 100 {
+					c.Count("error-bound:in-proved-class-included-weight<100", 1)
+				}
+			}
 			proved = new(big.Rat).Mul(unit, new(big.Rat).Add(big.NewRat(1, 2), big.NewRat(weight, 200)))
 		}
 		worst := new(big.Rat)
@@ -379,7 +388,11 @@ func errorBound(c *core.Ctx, docs []*calcproto.Doc, res []Result) {
 				worst.Set(diff)
 			}
 			if proved != nil && diff.Cmp(proved) > 0 {
-				c.TieBroken("theorem:C01/decided_class_bound", fmt.Sprintf("totals.%s = %s is further from the unrounded exact value %s than the bound proved for the document class (weight %d)", names[j], a.String(), want.FloatString(int(sub)+6), weight), Case{d})
+				thm := "theorem:C01/decided_class_bound"
+				if included {
+					thm = "theorem:C01/decided_class_bound_included"
+				}
+				c.TieBroken(thm, fmt.Sprintf("totals.%s = %s is further from the unrounded exact value %s than the bound proved for the document class (weight %d)", names[j], a.String(), want.FloatString(int(sub)+6), weight), Case{d})
 			}
 			if diff.Cmp(unit) >= 0 && !large[k] {
 				cls := ""
